@@ -528,6 +528,8 @@ pub trait SlotOps: Send + Sync {
     /// value before the optional write; `touch`: take `access_mut()` even without writing
     fn get_mut(&self, w: &World, e: Entity, touch: bool, write: Option<i64>) -> Option<V>;
     fn remove(&self, w: &World, e: Entity) -> Option<V>;
+    /// `storage.drain().lend_join().get(e, &entities)`
+    fn lend_drain(&self, w: &World, e: Entity) -> Option<V>;
     fn contains(&self, w: &World, e: Entity) -> bool;
     fn entry(&self, w: &World, e: Entity, op: EntryOp, payload: i64, write: Option<i64>)
         -> EntryOut;
@@ -760,6 +762,14 @@ where
     fn remove(&self, w: &World, e: Entity) -> Option<V> {
         let mut s = w.write_storage::<C>();
         s.remove(e).map(|c| c.consume())
+    }
+
+    fn lend_drain(&self, w: &World, e: Entity) -> Option<V> {
+        let ents = w.entities();
+        let mut s = w.write_storage::<C>();
+        let mut it = s.drain().lend_join();
+        let r = it.get(e, &ents).map(|c| c.consume());
+        r
     }
 
     fn contains(&self, w: &World, e: Entity) -> bool {
